@@ -296,6 +296,11 @@ def r_point(ctx: Ctx, model):
 
 def run(ctx: Ctx):
     model = load(ctx.root)
+    # the adsorbate constants the enthalpy routines ask for (triple / critical point, saturation pressure, vaporisation enthalpy) come from
+    # the thermodynamic backend by default and in the documented units (getter outcome table shared with C20)
+    from .C20 import r_getters
+    r_getters(ctx, model, prop="C19", rule="E-adsorbate",
+              only=("p_triple", "p_critical", "t_critical", "saturation_pressure", "enthalpy_vaporisation", "enthalpy_liquefaction"))
     ctx.assume("linregress on affine data returns the generating slope; CoolProp h_vap is a function of pressure only")
     r_isosteric(ctx, model)
     r_whittaker(ctx, model)
